@@ -116,7 +116,7 @@ def run(prop, tier, seed):
             pts = [xa * K, xb * K, xa * K + hx * K // 2, xa * K + int(0.013 * hx * K), xb * K - int(0.007 * hx * K), xa * K + int(rng.uniform(0.05, 0.95) * hx * K)]
             for f in (1e-4, 1e-3, 5e-3, 0.01, 0.03, 0.3, 1.0, 2.7):
                 pts += [xb * K + int(f * hx * K), xa * K - int(f * hx * K)]
-            pts += [0, LK, int(rng.uniform(0, 1) * LK)]
+            pts += [0, LK] + [int(rng.uniform(0, 1) * LK) for _ in range(8)]       # points far along the curve (possibly near in the plane)
             pp = []
             for x in pts:
                 if sh.closed:
